@@ -19,7 +19,10 @@ from .symexec import RaiseSig, ReturnSig, BreakSig, ContinueSig, PathEnd, exc_is
 TWO32 = 2 ** 32
 
 LIB_AXIOMS = {
+    'Lock.acquire': 'Lock.acquire() returns True once the lock is held (False possible only when non-blocking or with a timeout); Lock.release() of an unheld lock raises RuntimeError',
+    'Lock.release': 'see Lock.acquire',
     'struct.pack': "struct.pack('<nI', v...) raises struct.error unless every 0 <= v < 2^32, else returns the concatenation of le32(v)",
+    'pow': 'pow(x, y[, m]) is x ** y [mod m] (concrete base and exponent)',
     'struct.unpack_from': "struct.unpack_from('<nI', b, off) raises struct.error unless len(b) - off >= 4n (off >= 0), else returns the n words of b[off:off+4n]",
     'struct.unpack': "struct.unpack('<nI', b) raises struct.error unless len(b) == 4n, else returns the n words unle32(b[4i:4i+4])",
     'struct.calcsize': "struct.calcsize('<nI') == 4n",
@@ -352,7 +355,34 @@ class World(object):
             return VFunc('method', obj, attr)
         if ex.mode == 'spec':
             raise Unsupported('%s has no field %s' % (obj.cls, attr))
+        if decl is None or not decl.real.get(self.twin) or self.real_class_assigns(decl.real[self.twin], attr):
+            # the real class does have such an attribute: the sidecar class declaration is stale, nothing is known about the field
+            raise Unsupported('%s.%s exists in the source but is not declared in the contract files (stale class declaration)' % (obj.cls, attr))
         raise RaiseSig(VExc('AttributeError'))
+
+    def real_class_assigns(self, ref, attr):
+        """Does any method of the real class (or of a base class inside the package) store to self.<attr>, or the class body bind it?"""
+        modshort, clsname = ref.split(':')
+        module = self.sources.module(modshort)
+        seen = set()
+        while clsname and clsname not in seen:
+            seen.add(clsname)
+            cls = module.classes.get(clsname)
+            if cls is None:
+                return True          # base outside this module: cannot tell
+            for n in ast.walk(cls):
+                if isinstance(n, ast.Attribute) and n.attr == attr and isinstance(n.ctx, ast.Store):
+                    return True
+                if isinstance(n, ast.Name) and n.id == attr and isinstance(n.ctx, ast.Store):
+                    return True
+            nxt = None
+            for b in cls.bases:
+                if isinstance(b, ast.Name) and b.id in module.classes:
+                    nxt = b.id
+                elif not (isinstance(b, ast.Name) and b.id == 'object'):
+                    return True
+            clsname = nxt
+        return False
 
     def find_method(self, module, clsname, attr):
         """Method lookup through single inheritance inside the package."""
@@ -1261,6 +1291,29 @@ def _class_bases(self, cls):
 World.class_bases = _class_bases
 
 
+def bi_pow(w, ex, args, kwargs, node):
+    """pow(x, y) == x ** y ; pow(x, y, m) == (x ** y) % m  (exact for concrete non-negative exponents; the modulus may be symbolic)."""
+    w.use('pow')
+    if len(args) not in (2, 3) or kwargs:
+        raise Unsupported('pow() call shape')
+    x, y = to_int(args[0]), to_int(args[1])
+    xc, yc = VInt(x).concrete(), VInt(y).concrete()
+    if xc is None or yc is None or yc < 0:
+        raise Unsupported('symbolic power')
+    v = xc ** yc
+    if len(args) == 2:
+        return VInt(v)
+    m = to_int(args[2])
+    mc = VInt(m).concrete()
+    if mc is not None:
+        if mc == 0:
+            raise RaiseSig(VExc('ValueError'))
+        return VInt(v % mc)
+    if ex.mode != 'spec' and ex.branch(m == 0):
+        raise RaiseSig(VExc('ValueError'))
+    return VInt(SF.PYMOD(z3.IntVal(v), m))
+
+
 def bi_sum(w, ex, args, kwargs, node):
     w.use('sum')
     _need(args, 1, 'sum')
@@ -1295,7 +1348,7 @@ def bi_struct_pack(w, ex, args, kwargs, node):
         raise RaiseSig(VExc('struct.error'))
     out = []
     for k, v in zip(kinds, vals):
-        if k == 'I':
+        if k in ('I', 'i'):
             if isinstance(v, VOpt):
                 if ex.branch(v.isnone):
                     raise RaiseSig(VExc('struct.error'))
@@ -1303,10 +1356,11 @@ def bi_struct_pack(w, ex, args, kwargs, node):
             if isinstance(v, VNone) or not isinstance(v, (VInt, VBool)):
                 raise RaiseSig(VExc('struct.error'))
             x = to_int(v)
+            lo, hi = (0, TWO32) if k == 'I' else (-(2 ** 31), 2 ** 31)
             if ex.mode != 'spec':
-                if not ex.branch(z3.And(x >= 0, x < TWO32)):
+                if not ex.branch(z3.And(x >= lo, x < hi)):
                     raise RaiseSig(VExc('struct.error'))
-            out.append(SF.le32(x))
+            out.append(SF.le32(x if k == 'I' else z3.If(x < 0, x + 2 ** 32, x)))
         else:
             size = k[1]
             if not isinstance(v, VBytes):
@@ -1338,11 +1392,13 @@ def _parse_fmt(fmt):
         num = ''
         if ch in 'IL':
             kinds.extend(['I'] * cnt)
+        elif ch in 'il':
+            kinds.extend(['i'] * cnt)
         elif ch == 's':
             kinds.append(('s', cnt))
         else:
             raise Unsupported('struct format char %r' % ch)
-    size = sum(4 if k == 'I' else k[1] for k in kinds)
+    size = sum(4 if k in ('I', 'i') else k[1] for k in kinds)
     return size, kinds
 
 
@@ -1360,8 +1416,9 @@ def bi_struct_unpack(w, ex, args, kwargs, node):
     out = []
     off = 0
     for k in kinds:
-        if k == 'I':
-            out.append(VInt(SF.unle32(ex.slice_term(data.term, z3.IntVal(off), z3.IntVal(off + 4)))))
+        if k in ('I', 'i'):
+            u = SF.unle32(ex.slice_term(data.term, z3.IntVal(off), z3.IntVal(off + 4)))
+            out.append(VInt(u if k == 'I' else z3.If(u >= 2 ** 31, u - 2 ** 32, u)))      # 'i': two's complement
             off += 4
         else:
             out.append(VBytes(ex.slice_term(data.term, z3.IntVal(off), z3.IntVal(off + k[1])), False))
@@ -1389,9 +1446,15 @@ def bi_struct_unpack_from(w, ex, args, kwargs, node):
     out = []
     off = 0
     for k in kinds:
-        n = 4 if k == 'I' else k[1]
+        n = 4 if k in ('I', 'i') else k[1]
         piece = ex.slice_term(data.term, off0 + off, off0 + off + n)
-        out.append(VInt(SF.unle32(piece)) if k == 'I' else VBytes(piece, False))
+        if k == 'I':
+            out.append(VInt(SF.unle32(piece)))
+        elif k == 'i':
+            u = SF.unle32(piece)
+            out.append(VInt(z3.If(u >= 2 ** 31, u - 2 ** 32, u)))
+        else:
+            out.append(VBytes(piece, False))
         off += n
     return VTuple(out)
 
@@ -1551,7 +1614,7 @@ def bi_noop(w, ex, args, kwargs, node):
 
 
 BUILTINS = {
-    'len': bi_len, 'min': _minmax(True), 'max': _minmax(False), 'int': bi_int, 'bool': bi_bool, 'bytes': bi_bytes,
+    'pow': bi_pow, 'len': bi_len, 'min': _minmax(True), 'max': _minmax(False), 'int': bi_int, 'bool': bi_bool, 'bytes': bi_bytes,
     'bytearray': bi_bytearray, 'isinstance': bi_isinstance, 'sum': bi_sum, 'hasattr': bi_hasattr, 'ord': bi_ord, 'str': bi_str,
     'struct.pack': bi_struct_pack, 'struct.unpack': bi_struct_unpack, 'struct.unpack_from': bi_struct_unpack_from, 'struct.calcsize': bi_struct_calcsize,
     'time.time': bi_time_time, 'contextmanager': bi_contextmanager, 'socket.gethostname': bi_gethostname, 'os.fstat': bi_fstat, 'namedtuple': bi_namedtuple, 'open': bi_open, 'async_timeout.timeout': bi_async_timeout, 'platform.system': bi_platform_system,
@@ -1667,7 +1730,45 @@ def m_constdict_get(w, ex, base, args, kwargs, node):
     return base.lookup(ex, args[0], strict=False, default=default)
 
 
+def m_lock_acquire(w, ex, base, args, kwargs, node):
+    """Lock.acquire(blocking=True, timeout=-1) / await asyncio.Lock.acquire(): with the defaults it returns True once the lock is held;
+    non-blocking or with a timeout it may also return False without the lock (threading).  Same obligations as entering `with lock`."""
+    w.use('Lock.acquire')
+    may_fail = False
+    if args or kwargs:
+        blocking = args[0] if args else kwargs.get('blocking')
+        timeout = args[1] if len(args) > 1 else kwargs.get('timeout')
+        if blocking is not None:
+            c = blocking.concrete() if hasattr(blocking, 'concrete') else None
+            may_fail = may_fail or c is not True
+        if timeout is not None:
+            may_fail = True
+    if may_fail and ex.choose('lock.acquire.fails'):
+        return VBool(False)
+    w.lock_acquire(ex, base)
+    return VBool(True)
+
+
+def m_lock_release(w, ex, base, args, kwargs, node):
+    w.use('Lock.release')
+    fld = 'held_' + base.name
+    if not ex.branch(ex.G.fields[fld].term):
+        raise RaiseSig(VExc('RuntimeError'))          # release of an unlocked lock
+    w.lock_release(ex, base)
+    return NONE
+
+
+def m_lock_locked(w, ex, base, args, kwargs, node):
+    # whether ANY thread of control holds it: unknown unless this one does
+    held = ex.G.fields['held_' + base.name].term
+    other = z3.Bool(ex.fresh_name('locked_by_other'))
+    return VBool(z3.Or(held, other))
+
+
 METHODS = {
+    ('VLock', 'acquire'): m_lock_acquire,
+    ('VLock', 'release'): m_lock_release,
+    ('VLock', 'locked'): m_lock_locked,
     ('VBytes', 'decode'): m_bytes_decode,
     ('VStr', 'encode'): m_str_encode,
     ('VStr', 'format'): m_str_format,
